@@ -28,6 +28,8 @@ type deployScript struct {
 	FailRead  bool `json:"fail_read"`  // reads fail immediately (schema cannot be read)
 	FailWrite bool `json:"fail_write"` // writes fail (bad connection)
 	FailClose bool `json:"fail_close"` // Close() returns an error (after closing)
+	// writes after the n-th fail (0 = never): 1 lets the schema request through and fails the "client done" message
+	FailWriteAfter int `json:"fail_write_after"`
 }
 
 type execScript struct {
@@ -145,6 +147,7 @@ type scriptedConn struct {
 	script    deployScript
 	closeOnce sync.Once
 	closeErr  error
+	writes    atomic.Int64
 }
 
 func (p *scriptedConn) Read(buf []byte) (int, error) {
@@ -156,6 +159,9 @@ func (p *scriptedConn) Read(buf []byte) (int, error) {
 func (p *scriptedConn) Write(buf []byte) (int, error) {
 	if p.script.FailWrite {
 		return 0, fmt.Errorf("scripted write failure")
+	}
+	if p.script.FailWriteAfter > 0 && int(p.writes.Add(1)) > p.script.FailWriteAfter {
+		return 0, fmt.Errorf("scripted write failure after %d writes", p.script.FailWriteAfter)
 	}
 	return p.writer.Write(buf)
 }
